@@ -579,11 +579,47 @@ def selftest(seed: int) -> int:
     if vlib.tlc_judge_trace("C14", SD, "TKeys", cfg, ev, "self0"):
         print("selftest: pristine trace rejected", vlib.tlc_judge_trace("C14", SD, "TKeys", cfg, ev, "self0")); ok = False
     bad = json.loads(json.dumps(ev))
-    bad[5]["ret"] = 3  # KIL shows a row nobody holds
+    [e for e in bad if e["ev"] == "ReadKIL"][0]["ret"] = 3  # KIL shows a row nobody holds (the position of the read depends on the driver's preamble)
     if not any(b["clause"] == "KilSound" for b in vlib.tlc_judge_trace("C14", SD, "TKeys", cfg, bad, "self1")):
         print("selftest: phantom KIL row accepted"); ok = False
     dropped = [e for e in ev if not (e["ev"] == "Tick" and e["events"] and e["events"][0][1] == 1)]
     if len(dropped) == len(ev) or not vlib.tlc_judge_trace("C14", SD, "TKeys", cfg, dropped, "self2"):
         print("selftest: missing release event accepted"); ok = False
+    # the matrix inside the machine: a recorded run of each whole machine is accepted; three corruptions of it are rejected at the
+    # clause they contradict
+    sys.path.insert(0, str(vlib.VERIF / "harness" / "py"))
+    import machine_harness as mh
+    script = ([{"ev": "TimerCfg", "pm": 1, "ps": 0}, {"ev": "Step", "ins": {"k": "STROBE", "v": 0xFF}}, {"ev": "Key", "code": 0, "press": True}]
+              + [{"ev": "Step", "ins": {"k": "NOP"}}] * 8 + [{"ev": "Key", "code": 0, "press": False}] + [{"ev": "Step", "ins": {"k": "NOP"}}] * 10)
+    vh = Vh()
+    try:
+        for impl in ("rs", "py"):
+            m = mh.RustMachine(vh, kb_irq=False, press_th=2) if impl == "rs" else mh.PyMachine(kb_irq=False, press_th=2)
+            mev = mh.run_script(m, script, 1)
+            if vlib.tlc_judge_trace("C14", SD, "TraceMachineKbd", "TraceMachineKbd.cfg", mev, f"selfm0{impl}"):
+                print(f"selftest: pristine {impl} machine trace rejected"); ok = False
+            grew = [i for i, e in enumerate(mev) if e["ev"] == "Step" and len(e["post"]["kf"]) > len(e["pre"]["kf"])]
+            if not grew:
+                print(f"selftest: no key event reached the {impl} machine's queue"); ok = False
+                continue
+            i = grew[0]
+            b1 = json.loads(json.dumps(mev))
+            b1[i]["post"]["isr"] |= 4             # the key request raised although keyboard interrupts are off
+            if not any(b["clause"] == "KeyiGated" for b in vlib.tlc_judge_trace("C14", SD, "TraceMachineKbd", "TraceMachineKbd.cfg", b1, f"selfm1{impl}")):
+                print(f"selftest: KEYI with keyboard interrupts off accepted ({impl})"); ok = False
+            b2 = json.loads(json.dumps(mev))
+            b2[i]["post"]["kf"] = [0x80 | 5] + list(b2[i]["post"]["kf"])      # a release event of a key that never went down, ahead of the queue
+            if impl == "py":
+                b2[i]["kev"] = [0x80 | 5] + list(b2[i]["kev"])
+            if not any(b["clause"] in ("EventOrder", "DropsOldestOnly") for b in vlib.tlc_judge_trace("C14", SD, "TraceMachineKbd", "TraceMachineKbd.cfg", b2, f"selfm2{impl}")):
+                print(f"selftest: release without press accepted ({impl})"); ok = False
+            b3 = json.loads(json.dumps(mev))
+            b3[i]["post"]["kf"] = list(b3[i]["post"]["kf"]) + list(range(16, 26))      # more entries than the queue holds
+            if impl == "py":
+                b3[i]["kev"] = list(b3[i]["kev"]) + list(range(16, 26))
+            if not any(b["clause"] == "FifoBounded" for b in vlib.tlc_judge_trace("C14", SD, "TraceMachineKbd", "TraceMachineKbd.cfg", b3, f"selfm3{impl}")):
+                print(f"selftest: over-full queue accepted ({impl})"); ok = False
+    finally:
+        vh.close()
     print("selftest C14:", "ok" if ok else "FAILED")
     return 0 if ok else 2
